@@ -87,8 +87,8 @@ _constant_exprs: dict[_Constant, Callable[[], gmp.mpfr]] = {
     _Constant.LN2 : gmp.const_log2,
     _Constant.LN10 : lambda: gmp.log(10),
     _Constant.PI : gmp.const_pi,
-    _Constant.PI_2 : lambda: gmp.const_pi() / 2, # division by 2 is exact
-    _Constant.PI_4 : lambda: gmp.const_pi() / 4, # division by 4 is exact
+    _Constant.PI_2 : lambda: gmp.asin(1), # a single operation, so its ternary value covers the result
+    _Constant.PI_4 : lambda: gmp.atan(1), # a single operation, so its ternary value covers the result
     _Constant.M_1_PI : lambda: 1 / gmp.const_pi(), # TODO: may be inaccurate
     _Constant.M_2_PI : lambda: 2 / gmp.const_pi(), # TODO: may be inaccurate
     _Constant.M_2_SQRTPI : lambda: 2 / gmp.sqrt(gmp.const_pi()), # TODO: may be inaccurate
